@@ -56,6 +56,26 @@ def _cov_writers(chk, repo):
                         f"`{unparse(st)[:80]}` pre-populates the stored covariance outside the cov setter / compute_cov: the expression is not the covariance for every "
                         f"storage form of this parameterisation (for a 1-D vector of standard deviations S@S.T is the scalar sum of squares, not diag(S**2)), and the "
                         f"closed-form MAP and the direct sampler read it without further checks", st)
+    # a parameterisation setter that re-derives the covariance (self.compute_cov(), which reads self.sqrtprec) does so only after it has stored the new
+    # square-root precision: otherwise the refreshed covariance is the inverse of the OLD precision
+    for kind, name, fn in G.all_functions():
+        if kind != "setter" or name == "cov":
+            continue
+        g = CFG(fn)
+        calls = [nd for nd in g.nodes if nd.ast is not None and nd.kind in ("stmt", "return", "test") and any(
+            isinstance(c, ast.Call) and call_name(c) in ("self.compute_cov",) for c in ast.walk(nd.ast))]
+        if not calls:
+            continue
+        stores = [nd for nd in g.nodes if isinstance(nd.ast, ast.Assign) and any(path_of(t) == "self._sqrtprec" for T in nd.ast.targets
+                                                                               for t in (T.elts if isinstance(T, (ast.Tuple, ast.List)) else [T]))]
+        # the LAST store of the canonical square root in the setter (the helpers' result) must precede the refresh on every path
+        for c in calls:
+            n += 1
+            final = [st for st in stores if not any(g.reaches(st, o) and o is not st for o in stores)]
+            ok = bool(final) and all(g.dominates(st, c) for st in final)
+            chk.add("C15-R6", f"{G.qual}.@{name}=/compute_cov-after-update", ok, site(repo, c.ast), "covariance re-derived only after the new sqrtprec is stored",
+                    f"the `{name}` setter calls compute_cov() before it has stored the square-root precision of the new value: compute_cov() reads self.sqrtprec, so the "
+                    f"stored covariance is the inverse of the PREVIOUS precision while logd already uses the new one; closed-form MAP and the direct sampler read that covariance", c.ast)
     if n < 4:
         raise AnchorError(f"Gaussian: {n} writers of _cov found, at least 4 confirmed by hand (cov setter, clears, compute_cov)")
 
@@ -70,6 +90,8 @@ def run(chk, repo: Repo):
                        "only the cov setter and compute_cov populate the stored covariance", floor=5)
     from ..gram import gram_orientation
     gram_orientation(chk, repo, "C15-R6", only={"Gaussian.compute_cov"})
+    from ..gram import same_orientation_application
+    same_orientation_application(chk, repo, "C15-R6")          # the analytic gradient handed to the optimiser applies sqrtprec.T @ (sqrtprec @ r)
     _cov_writers(chk, repo)
     bp = repo.cls(BP)
     mp = repo.method(bp, "MAP")[1]
@@ -216,9 +238,17 @@ def run(chk, repo: Repo):
             problems.append("the solver's point is not returned unchanged")
     chk.add("C15-R3", f"{bp.qual}._solve_max_point", not problems, site(repo, sm), "minimise -logd with -gradient (both or neither)", "; ".join(problems), sm)
     ml = repo.method(bp, "ML")[1]
-    kind, res = walk(canon_keep(repo, bp, ml, KEEP), {"disp": False}, pn)
-    ok = kind == "return" and canon_txt(unparse(res)) == canon_txt("cuqi.array.CUQIarray(self._solve_max_point(self.likelihood,disp=disp,x0=x0)[0],geometry=self.likelihood.geometry)")
-    chk.decide("C15-R3", f"{bp.qual}.ML", ok, kind == "return", site(repo, ml), "maximiser of the likelihood wrapped with its geometry", "ML does not optimise the likelihood / wrap with its geometry", ml)
+    # every path of ML (tests that are not decided by the valuation are followed both ways): the numerical maximiser of the likelihood's own log-density,
+    # wrapped with the likelihood's geometry.  (A closed-form route would have to be the GENERALISED least-squares solution for the noise covariance.)
+    from ..pathtable import walk_all
+    outs = walk_all(canon_keep(repo, bp, ml, KEEP), {pn("disp"): False}, pn)
+    want_ml = canon_txt("cuqi.array.CUQIarray(self._solve_max_point(self.likelihood,disp=disp,x0=x0)[0],geometry=self.likelihood.geometry)")
+    got_ml = sorted({(k_, canon_txt(t_) if (k_ == "return" and t_) else t_) for k_, t_ in outs}, key=str)
+    rec = bool(outs) and all(k_ in ("return", "raise") for k_, _ in outs)
+    ok = rec and [t_ for k_, t_ in got_ml if k_ == "return"] == [want_ml]
+    chk.decide("C15-R3", f"{bp.qual}.ML", ok, rec, site(repo, ml), "maximiser of the likelihood wrapped with its geometry, on every path",
+               f"ML returns {[t_[:140] for k_, t_ in got_ml if k_ == 'return' and t_ != want_ml][:1]} on some path: not the optimiser applied to the likelihood's own log-density "
+               f"(an ordinary least-squares shortcut ignores a non-scalar noise covariance) / not wrapped with its geometry", ml)
     S = stmts(repo, bp, mp)
     binfo, _ = unify(["$x.info=$info", "return $x"], S)
     chk.add("C15-R3", f"{bp.qual}.MAP/return", binfo is not None, site(repo, mp), "returns the estimate with solver info", "MAP does not return the wrapped estimate", mp)
